@@ -101,6 +101,24 @@ def run(tier, seed):
     rep.cov["twin"] = {"spec": "PackagesImpl", "distinct": gt["distinct"], "generated": gt["generated"]}
     rep.cov["states"] += gt["distinct"]
     rep.cov["transitions"] += gt["generated"]
+    # long random histories through the same Next relation (tlc -simulate): observed after every operation
+    from lib import gen
+    walks, wdepth = (400, 10) if tier == "quick" else (6000, 14)
+    rows, gs = gen.sim(SPEC, "PackagesGen", "PackagesSim.cfg", {"MaxDepth": wdepth}, num=walks, depth=wdepth + 2, seed=seed, timeout=1500)
+    for row in rows:
+        key = json.dumps(row["ops"], sort_keys=True)
+        if key not in have:
+            have.add(key)
+            stimuli.append({"id": len(stimuli) + 1, "every": True, "ops": row["ops"], "feat": sorted(row["feat"])})
+    rep.cov["walks"] = gs
+    # directed histories: two providers of one name, one of them withdrawn or changed (ConflictHistories)
+    rows, gd = gen.bfs(SPEC, "PackagesGen", "PackagesDirected.cfg", {}, timeout=600)
+    for row in rows:
+        key = json.dumps(row["ops"], sort_keys=True)
+        if key not in have:
+            have.add(key)
+            stimuli.append({"id": len(stimuli) + 1, "every": True, "ops": row["ops"], "feat": sorted(row["feat"])})
+    rep.cov["directed"] = gd
     findings = [f for f in common.load_findings(PROP) if f.get("status") == "open"]
     open_feats = {f["feature"]: f for f in findings}
     events = pipeline.drive(vdrive, "c13", stimuli)
@@ -124,7 +142,8 @@ def run(tier, seed):
     rep.cov["evaluations"] = len(stimuli)
     rep.cov["distinct_nontrivial"] = g["distinct"]
     rep.cov["rule"] = (f"one history per transition of PackagesGen (3 packages, 2 names x var/fn, depth<={depth}, VIEW on the "
-                       "reference state); distinct = distinct reference states reached; every history executed against slip "
+                       f"reference state) and of the implementation-shaped twin, plus {walks} random walks of {wdepth} operations through the same Next relation "
+                       "(observed after every operation); distinct = distinct reference states reached; every history executed against slip "
                        "with fresh packages, observation = full resolution matrix + qualified access")
     rep.cov["samples"] = [{"stimulus": s["ops"], "features": s["feat"]} for s in stimuli[:: max(1, len(stimuli) // 5)][:5]]
     rep.cov["exhaustive"] = True
